@@ -205,6 +205,7 @@ func ruleC07(w *World, r *Report) {
 	}
 	// ---- ClientKeeper.UpdateClient
 	k.keeperUpdateRule("C07")
+	k.tmProcessedTimeRule("C07.processed")
 	r.MinInstances("C07.", 40)
 }
 
